@@ -8,19 +8,29 @@ from .. import common as C
 ID = "C11"
 SRC_FACTS = ["envelope_magic", "envelope_version", "envelope_min_len"]
 RULE = ("round: exhaustive ciphertexts of length 0..8 over {00,ff,'a'} (quick: 0..5) and lengths 0..64 of a filler, "
-        "random beyond; mask: all 1- and 2-bit flips of envelopes <= 24 bytes (quick: sampled 2-bit), sampled 3-bit, "
+        "random beyond, and the lengths 2^k-1, 2^k, 2^k+1 for k = 1..17; wrap: the same lengths and a random sample "
+        "through the PUBLIC wrap side (eval.EncryptSecrets with a chosen-output encrypter; the text is read back from the "
+        "rewritten document, which is also taken through DecryptSecrets); mask: all 1- and 2-bit flips of envelopes <= 24 bytes (quick: sampled 2-bit), sampled 3-bit, "
         "all byte-aligned 4-byte windows with random content, random <=32-bit bursts incl. boundary-straddling; "
         "trunc: every truncation; forge: magic/version edits with a valid CRC; dec: malformed base64 / random "
-        "strings.  Every text is also taken through eval.DecryptSecrets (document) and the evaluator's fn::secret "
-        "with a recording decrypter - it must receive exactly the decoder's payload, and nothing for a rejected "
-        "text - and the decoder's result is re-read after two unrelated decodes (the caller owns it).  "
+        "strings; text: corruption of the base64 TEXT - all 1-bit flips of the texts of 8 envelopes (lengths = 0,1,2 mod 3), "
+        "every position x every alphabet character / '=' / CR / LF on two of them, sampled 2- and 3-bit flips, the two "
+        "witnesses of C11-text-flips.  Every text is also taken through eval.DecryptSecrets (a document carrying it "
+        "three times, and one under an escaped key) and the evaluator's fn::secret with a recording decrypter: a "
+        "rejected text MUST produce the error wrapping 'invalid ciphertext: <decoder error>' / exactly one diagnostic "
+        "per occurrence and never reach the decrypter; an accepted one must reach it once per occurrence with exactly "
+        "the decoder's payload (judged in Corr/C11.v); control bytes are embedded with YAML escapes; the decoder's "
+        "result is re-read after two unrelated decodes (the caller owns it).  "
         "non-trivial = mask non-zero / non-empty input; distinct by case content")
-ASSUMPTIONS = ["corruptions are applied to the binary envelope (before base64); bursts are measured in CRC "
-               "transmission order (bit j of byte i is position 8i+j); any change confined to 4 consecutive bytes "
-               "is such a burst",
+ASSUMPTIONS = ["ops mask/trunc/forge: corruptions are applied to the BINARY envelope (before base64); bursts are measured "
+               "in CRC transmission order (bit j of byte i is position 8i+j); any change confined to 4 consecutive bytes "
+               "is such a burst.  op text: corruptions are applied to the base64 TEXT; guaranteed there: exactly one "
+               "character replaced, neither the old nor the new one being '=' (theorems C11_text_one_char_replaced, "
+               "C11_text_char_outside_alphabet); up to three flipped text bits outside that class are the known finding "
+               "C11-text-flips",
                "the decrypter sees exactly what decodeCiphertext returns: proved of the model's evaluator "
-               "(Properties/C11_decrypt.v) and observed per case on both public entry points (texts with bytes outside "
-               "printable ASCII are not embedded in a document: flag 'skip')"]
+               "(Properties/C11_decrypt.v) and observed per case on both public entry points; a text that is not valid "
+               "UTF-8 cannot be the value of a YAML scalar and is not embedded (counted: paths_skipped_not_utf8)"]
 TRUSTED = ["base64/CRC of the Python generator only shape inputs; the expected corrupted representation is "
            "recomputed inside Coq and compared"]
 
@@ -68,6 +78,17 @@ def gen(rng, tier):
         add(op="round", ct=(b"\x5a" * n).hex())
     for _ in range(2000 if thorough else 200):
         add(op="round", ct=rng.bytes(rng.below(200 if rng.chance(1, 10) else 40)).hex())
+    # sizes around every power of two up to 128 KiB (buffer / chunk boundaries of the encoder and of base64)
+    sizes = sorted(set(n for k in range(1, 18) for n in (2 ** k - 1, 2 ** k, 2 ** k + 1)))
+    for n in sizes:
+        add(op="round", ct=rng.bytes(n).hex())
+    # --- the wrap side through the public API (EncryptSecrets -> envelope) ---------------------------------
+    for n in list(range(0, 14)) + sizes:
+        add(op="wrap", ct=rng.bytes(n).hex())
+    for _ in range(600 if thorough else 60):
+        add(op="wrap", ct=rng.bytes(rng.below(300)).hex())
+    for ct in (b"", b"\x00", b"\xff\xff\xff", b"\n", b"plain-text", b"fn::secret", b"\xa5" * 6):
+        add(op="wrap", ct=ct.hex())
 
     # --- masks -----------------------------------------------------------------------------------
     cts = [b"", b"a", b"\x00\xff", b"abc", rng.bytes(4), rng.bytes(7), rng.bytes(12)]
@@ -116,6 +137,37 @@ def gen(rng, tier):
             ps = sorted(p for p in ({start} | {start + rng.below(32) for _ in range(rng.below(10))}) if p < nb)
         add(op="mask", ct=ct.hex(), mask=mask_of(len(env), ps).hex())
 
+    # --- corruption of the base64 TEXT ---------------------------------------------------------------------
+    for w in TEXT_WITNESSES:
+        add(op="text", ct=w["ct"], tmask=w["tmask"])
+    tcts = [b"", b"a", b"ab", b"abc", rng.bytes(5), rng.bytes(9), rng.bytes(16), rng.bytes(31)]
+    specials = ALPHA + b"=\n\r" + bytes([0, 0x20, 0x2d, 0x5f, 0x7f])
+    for idx, ct in enumerate(tcts):
+        t = b64(envelope(ct))
+        L = len(t)
+        for p in range(8 * L):
+            add(op="text", ct=ct.hex(), tmask=mask_of(L, [p]).hex())
+        if idx in (1, 3) or thorough:
+            # every position x every replacement character (alphabet, padding, CR/LF, other bytes)
+            for k in range(L):
+                for ch in specials:
+                    if ch != t[k]:
+                        m = bytearray(L)
+                        m[k] = ch ^ t[k]
+                        add(op="text", ct=ct.hex(), tmask=bytes(m).hex())
+        for _ in range(1500 if thorough else 120):
+            ps = sorted(set(rng.below(8 * L) for _ in range(2 + rng.below(2))))
+            add(op="text", ct=ct.hex(), tmask=mask_of(L, ps).hex())
+        # flips among the last characters (padding, trailer)
+        for _ in range(300 if thorough else 40):
+            ps = sorted(set(8 * (L - 1 - rng.below(6)) + rng.below(8) for _ in range(1 + rng.below(3))))
+            add(op="text", ct=ct.hex(), tmask=mask_of(L, ps).hex())
+    for _ in range(2000 if thorough else 100):
+        ct = rng.bytes(rng.below(150))
+        L = len(b64(envelope(ct)))
+        ps = sorted(set(rng.below(8 * L) for _ in range(1 + rng.below(3))))
+        add(op="text", ct=ct.hex(), tmask=mask_of(L, ps).hex())
+
     # --- forged headers (valid CRC) ---------------------------------------------------------------
     for ct in [b"", b"xyz", rng.bytes(9)]:
         for magic in [b"escx", b"escy", b"ESCX", b"xcse", b"\x00\x00\x00\x00", b"esc", b"escxx"]:
@@ -148,6 +200,23 @@ def gen(rng, tier):
     return cases
 
 
+ALPHA = b"ABCDEFGHIJKLMNOPQRSTUVWXYZabcdefghijklmnopqrstuvwxyz0123456789+/"
+
+
+def _text_witnesses():
+    """the two witnesses of the known finding C11-text-flips (selftest/witness/C11-text-flips.json)"""
+    import json
+    import os
+    p = os.path.join(C.VERIF, "selftest", "witness", "C11-text-flips.json")
+    try:
+        return json.load(open(p))
+    except (OSError, ValueError):
+        return []
+
+
+TEXT_WITNESSES = _text_witnesses()
+
+
 def impl_case(c):
     return c
 
@@ -168,6 +237,8 @@ def prepare(c):
         return {"op": "round", "ct": c["ct"]}
     if op == "dec":
         return {"op": "dec", "repr": c["repr"]}
+    if op == "wrap":
+        return {"op": "wrap", "ct": c["ct"]}
     ct = bytes.fromhex(c["ct"])
     if op == "mask":
         r = b64(xor(envelope(ct), bytes.fromhex(c["mask"])))
@@ -175,6 +246,8 @@ def prepare(c):
         r = b64(envelope(ct)[:c["n"]])
     elif op == "forge":
         r = b64(envelope(ct, bytes.fromhex(c["magic"]), c["version"]))
+    elif op == "text":
+        r = xor(b64(envelope(ct)), bytes.fromhex(c["tmask"]))
     c["repr"] = r.hex()
     return {"op": "dec", "repr": c["repr"]}
 
@@ -183,15 +256,35 @@ def _flag(v):
     return v if v in ("same", "skip") else "differs"
 
 
+def _err(e):
+    if e == "none":
+        return "none"
+    if isinstance(e, str) and e.startswith("ic:"):
+        k = e[3:]
+        return "(ic %s)" % (k if k in ("base64", "short", "header", "checksum", "version") else "panic")
+    return "other"
+
+
+def _pobs(o):
+    if not isinstance(o, dict) or "skip" in o:
+        return "skip"
+    return "(obs %s %d %d %s)" % (_err(o.get("err", "none")), o.get("diags", 0), o.get("n", 0), _flag(o.get("same")))
+
+
 def line(c, o):
     core = core_line(c, o)
     if core is None:
         return None
     d = o["dec"] if "dec" in o else o
-    if "panic" in d or "crash" in d:
-        return "(c11 %s same skip skip)" % core
+    back = _flag(o.get("back", "same"))
+    if "panic" in d or "crash" in d or "paths" not in d:
+        return "(c11 %s same 0 skip skip skip %s)" % (core, back)
     retained = "same" if d.get("res") != "ok" or d.get("first") == d.get("ct") else "differs"
-    return "(c11 %s %s %s %s)" % (core, retained, _flag(d.get("doc")), _flag(d.get("eval")))
+    p = d["paths"]
+    if "skip" in p:
+        return "(c11 %s %s 0 skip skip skip %s)" % (core, retained, back)
+    return "(c11 %s %s %d %s %s %s %s)" % (core, retained, p.get("occ", 0), _pobs(p.get("doc")), _pobs(p.get("doc2")),
+                                           _pobs(p.get("eval")), back)
 
 
 def core_line(c, o):
@@ -199,11 +292,17 @@ def core_line(c, o):
     X = lambda h: "x" + h
     if op == "round":
         return "(round %s %s %s)" % (X(c["ct"]), X(o.get("repr", "")), _dec(o["dec"] if "dec" in o else o))
+    if op == "wrap":
+        if "dec" not in o:
+            return "(wrap %s x panic)" % X(c["ct"])
+        return "(wrap %s %s %s)" % (X(c["ct"]), X(o.get("repr", "")), _dec(o["dec"]))
     d = _dec(o)
     if op == "dec":
         return "(dec %s %s)" % (X(c["repr"]), d)
     if op == "mask":
         return "(mask %s %s %s %s)" % (X(c["ct"]), X(c["mask"]), X(c["repr"]), d)
+    if op == "text":
+        return "(text %s %s %s %s)" % (X(c["ct"]), X(c["tmask"]), X(c["repr"]), d)
     if op == "trunc":
         return "(trunc %s %d %s %s)" % (X(c["ct"]), c["n"], X(c["repr"]), d)
     if op == "forge":
@@ -213,7 +312,18 @@ def core_line(c, o):
 
 def shrink(c):
     op = c["op"]
-    if op in ("round", "mask", "trunc", "forge") and c.get("ct"):
+    if op == "text":
+        m = bytearray(bytes.fromhex(c["tmask"]))
+        for i in range(len(m)):
+            for j in range(8):
+                if m[i] & (1 << j):
+                    mm = bytearray(m)
+                    mm[i] &= ~(1 << j)
+                    if any(mm):
+                        d = dict(c, tmask=bytes(mm).hex())
+                        d.pop("repr", None)
+                        yield d
+    if op in ("round", "wrap", "mask", "trunc", "forge") and c.get("ct"):
         ct = bytes.fromhex(c["ct"])
         if op != "mask":
             for cand in (ct[1:], ct[:-1], ct[: len(ct) // 2]):
@@ -235,9 +345,36 @@ def shrink(c):
 
 def distribution(cases, r):
     d = {}
+    skip_utf8 = skip_load = judged = 0
+    text_known = text_guaranteed = 0
     for c, o in zip(cases, r["obs"]):
         k = c["op"] + ":" + str(o.get("res", "round" if "repr" in o else "crash"))
         d[k] = d.get(k, 0) + 1
+        dd = o["dec"] if "dec" in o else o
+        p = dd.get("paths") if isinstance(dd, dict) else None
+        if isinstance(p, dict):
+            if "skip" in p:
+                skip_utf8 += 1
+            else:
+                judged += 1
+                if isinstance(p.get("eval"), dict) and "skip" in p["eval"]:
+                    skip_load += 1
+        if c["op"] == "text":
+            m = bytes.fromhex(c["tmask"])
+            nz = [i for i, b in enumerate(m) if b]
+            w = sum(bin(b).count("1") for b in m)
+            t = b64(envelope(bytes.fromhex(c["ct"])))
+            one = len(nz) == 1 and t[nz[0]] != 0x3d and (t[nz[0]] ^ m[nz[0]]) != 0x3d
+            if one:
+                text_guaranteed += 1
+            elif w <= 3:
+                text_known += 1
+    # escape hatches, counted
+    d["paths_judged"] = judged
+    d["paths_skipped_not_utf8"] = skip_utf8
+    d["eval_path_skipped_document_not_loadable"] = skip_load
+    d["text_cases_in_guaranteed_class"] = text_guaranteed
+    d["text_cases_in_known_class_C11-text-flips"] = text_known
     return d
 
 
